@@ -785,7 +785,7 @@ class Interp:
     def st_For(self, s, frame, live):
         it = self.eval(s.iter, frame, live)
         itu = self.unname(it)
-        lit = literal_items(itu, self.unname)
+        lit = literal_items(itu, self.unname, self._known_len(live))
         if lit is not None and itu.op not in ("tuple", "list") and \
                 not is_range_literal(itu):
             itu = T("tuple", *lit)         # enumerate / zip of literals
@@ -855,6 +855,22 @@ class Interp:
         if s.orelse:
             self.exec_block(s.orelse, frame, live)
         return live
+
+    def _known_len(self, live: T):
+        """lengths the path condition fixes: `len(x) == n` holds / its
+        negation has already left the path (raise, return)"""
+        def kl(x: T) -> Optional[int]:
+            ln = tm.call(tm.glob("builtins.len"), (x,), ())
+            for a in tm.atoms(live):
+                if a.op == "cmp" and a.args[0] in ("Eq", "NotEq") and \
+                        a.args[1] is ln and tm.is_const(a.args[2]) and \
+                        type(tm.const_val(a.args[2])) is int:
+                    eq = a.args[0] == "Eq"
+                    if tm.fold(live, lambda t: (not eq) if t is a
+                               else None) is False:
+                        return tm.const_val(a.args[2])
+            return None
+        return kl
 
     def _append_loop(self, n, lid, init, upd, it):
         """Value of a loop-carried variable after the loop.
@@ -2209,9 +2225,12 @@ def _canon(t: T, unname=lambda v: v):
     return ("t",) + tuple(_canon(x, unname) for x in t.args)
 
 
-def literal_items(it: T, unname=lambda v: v) -> Optional[List[T]]:
+def literal_items(it: T, unname=lambda v: v, known_len=None
+                  ) -> Optional[List[T]]:
     """the items of an iteration space that is known completely: a literal
-    tuple / list, range(consts), enumerate(...) or zip(...) of those"""
+    tuple / list, range(consts), enumerate(...) or zip(...) of those; in a
+    zip also a sequence whose length the path condition fixes
+    (`known_len`): its items are seq[0] .. seq[n-1]"""
     it = unname(it)
     if it.op in ("tuple", "list"):
         if any(x.op == "star" for x in it.args):
@@ -2243,13 +2262,18 @@ def literal_items(it: T, unname=lambda v: v) -> Optional[List[T]]:
                     isinstance(extra[0].args[1], int)):
                 return None
             start = extra[0].args[1]
-        inner = literal_items(it.args[1][0], unname)
+        inner = literal_items(it.args[1][0], unname, known_len)
         if inner is None:
             return None
         return [T("tuple", const(start + k), x)
                 for k, x in enumerate(inner)]
     if name == "builtins.zip" and it.args[1] and not it.args[2]:
         cols = [literal_items(a, unname) for a in it.args[1]]
+        if known_len is not None and any(c is not None for c in cols):
+            for k, a in enumerate(it.args[1]):
+                n = known_len(a) if cols[k] is None else None
+                if n is not None and 0 <= n <= 8:
+                    cols[k] = [tm.sub(a, const(j)) for j in range(n)]
         if any(c is None for c in cols):
             return None
         return [T("tuple", *row) for row in zip(*cols)]
